@@ -44,9 +44,12 @@ struct Agg {
     nodes: u64,
     sim_ns: u128,
     max_runnable: usize,
+    post_cancel_max: u64,
+    post_cancel_hist: [u64; 8],
     samples: Vec<Value>,
     found: Vec<Found>,
     known_hits: BTreeMap<String, (u64, String)>,
+    violating_runs: BTreeMap<String, u64>,
     other_props: BTreeMap<String, (u64, String)>,
     harness_errors: Vec<String>,
     diverged: u64,
@@ -138,6 +141,11 @@ pub fn run_batch(ctx: &Ctx, cfg: &BatchCfg) -> BatchResult {
                     a.nodes += rep.stats.nodes;
                     a.sim_ns += rep.stats.sim_ns as u128;
                     a.max_runnable = a.max_runnable.max(rep.stats.max_runnable);
+                    a.post_cancel_max = a.post_cancel_max.max(rep.stats.post_cancel_max);
+                    if rep.stats.post_cancel_max > 0 {
+                        let b = match rep.stats.post_cancel_max { 0..=999 => 0, 1000..=4999 => 1, 5000..=9999 => 2, 10000..=19999 => 3, 20000..=49999 => 4, 50000..=99999 => 5, 100000..=249999 => 6, _ => 7 };
+                        a.post_cancel_hist[b] += 1;
+                    }
                     if rep.diverged {
                         a.diverged += 1;
                     }
@@ -162,6 +170,7 @@ pub fn run_batch(ctx: &Ctx, cfg: &BatchCfg) -> BatchResult {
                             e.0 += 1;
                             continue;
                         }
+                        *a.violating_runs.entry(v.signature.clone()).or_insert(0) += 1;
                         if !a.found.iter().any(|f| f.violation.signature == v.signature) {
                             a.found.push(Found { index: i, run_seed, case: case.clone(), spec: spec.clone(), violation: v, trace: rep.trace.clone() });
                         }
@@ -194,7 +203,7 @@ pub fn run_batch(ctx: &Ctx, cfg: &BatchCfg) -> BatchResult {
         let path = crate::replay::minimise_and_write(ctx, f, &cfg.prop);
         println!("VIOLATION property={} replay={}", cfg.prop, path);
         if !cfg.quiet {
-            println!("  signature: {}", f.violation.signature);
+            println!("  signature: {} (seen in {} of the runs executed)", f.violation.signature, a.violating_runs.get(&f.violation.signature).copied().unwrap_or(0));
             println!("  detail: {}", f.violation.detail);
         }
         replay_paths.push(path);
@@ -229,6 +238,8 @@ pub fn run_batch(ctx: &Ctx, cfg: &BatchCfg) -> BatchResult {
                 "choice_points_with_2plus_runnable": a.choice_points,
                 "max_runnable_tasks": a.max_runnable,
                 "nodes_searched": a.nodes,
+                "post_cancel_nodes_per_worker_max": a.post_cancel_max,
+                "post_cancel_nodes_histogram": {"<1k": a.post_cancel_hist[0], "1k-5k": a.post_cancel_hist[1], "5k-10k": a.post_cancel_hist[2], "10k-20k": a.post_cancel_hist[3], "20k-50k": a.post_cancel_hist[4], "50k-100k": a.post_cancel_hist[5], "100k-250k": a.post_cancel_hist[6], ">=250k": a.post_cancel_hist[7]},
                 "simulated_time_s": (a.sim_ns / 1_000_000_000) as u64,
                 "simulated_time_note": "summed simulated clock of UCI sessions (end-of-session clock jumps excluded, each session capped at 4000 s); search- and table-level scenarios have no clock and report scheduler steps and nodes instead",
                 "faults_fired": a.faults,
